@@ -2779,7 +2779,7 @@ class MainProvider(ResolverMixin, BaseProvider):
                     or ot > OPEN_MAX_TIMEOUT:
                 raise CIMError(
                     CIM_ERR_INVALID_PARAMETER,
-                    _format("OperationTimeout {0!A }must be positive integer "
+                    _format("OperationTimeout {0!A} must be positive integer "
                             "less than {1!A}", ot, OPEN_MAX_TIMEOUT))
 
     def _validate_pull_operations_enabled(self):
